@@ -195,3 +195,16 @@ Print Assumptions C01_ptr_op.
 
 Example ex_ptr_history : pm_run (pm_empty, pm_empty) ex_ops = spec_run ([], []) ex_ops.
 Proof. vm_compute. reflexivity. Qed.
+
+(* ---- (T) obligations over data regenerated from the CURRENT source (coq/Gen/C01_Gen.v) ------------ *)
+From Boltons Require Import Lib.C01_Api Gen.C01_Gen.
+
+(* every public callable the class defines today is an operation the Spec/Model/Check cover *)
+Theorem C01_api_covered : api_covered gen_own_public = true.
+Proof. vm_compute. reflexivity. Qed.
+Print Assumptions C01_api_covered.
+
+(* no mutating dict method is inherited un-overridden (it would update the dict storage only) *)
+Theorem C01_dict_mutators_overridden : gen_dict_mutators_inherited = [].
+Proof. reflexivity. Qed.
+Print Assumptions C01_dict_mutators_overridden.
